@@ -146,6 +146,10 @@ def gen_c12_case(rng: random.Random):
                 secs = secs + [rng.choice(secs)]
         wr, mr = weights(regs, REGS)
         ws, ms = weights(secs, SECS)
+        if "huge_int" in (mr, ms):
+            # outputs in whole currency units on both levels (their pairwise products exceed the range of 64-bit integers)
+            wr, mr = {k: float(rng.choice([1, 2, 3, 5, 7]) * 10**15) for k in regs}, "huge_int"
+            ws, ms = {k: float(rng.choice([1, 2, 3, 5, 7]) * 10**15) for k in secs}, "huge_int"
         case.update({"regs": regs, "secs": secs, "wr": None if wr is None else list(map(list, wr.items())),
                      "ws": None if ws is None else list(map(list, ws.items())), "wmode": mr + "/" + ms})
         if bad:
